@@ -354,6 +354,37 @@ def runPairLine (r : Report) (sec : Nat) (l : Line) : Report :=
     | _, _, _, _, _, _, _ => r.mismatch sec l.idx "bad-op" (joinSp l.op)
   | _ => r.mismatch sec l.idx "bad-op" (joinSp l.op)
 
+/-- `tbw <kind> <act>` => `during=<blocked|res> after=<res> final=<view>`: the handler acts while the timeout branch is
+between taking `tw.mu` and `timedOut = true` (model: pc = t1, `mu = true`) -/
+def runTbwLine (r : Report) (sec : Nat) (l : Line) : Report :=
+  match l.op with
+  | ["tbw", kindTok, actTok] =>
+    match parseKind kindTok, parseAct actTok with
+    | some (some k), some a =>
+      let s1 := stepD (stepD (St.init [a]) (.env k)) .mTimeout
+      let during := match step reasonBytes s1 .h with
+        | none => "blocked"
+        | some s' => (s'.log.getLast?.map showRes).getD "?"
+      let s2 := stepD (stepD (stepD (match step reasonBytes s1 .h with | some s' => s' | none => s1) .mAdv) .mAdv) .mAdv
+      let s3 := hsteps 1 s2
+      let after := (s3.log.head?.map showRes).getD "?"
+      let model := s!"during={during} after={after} final={showView (Spec.ofRec s3.w)}"
+      let impl := joinSp l.obs
+      let r := r.addCover s!"tbw-{(actTok.splitOn ":").headD ""}-during-{during}"
+      let r := if model ≠ impl then r.mismatch sec l.idx model impl else r
+      let locked := match a with | .setHeader _ _ => false | _ => true
+      let r := if locked && obsOf l "during" ≠ "blocked" then
+        r.violation sec l.idx s!"an action of the work went through while the timeout response was being written (the timeout branch must hold the writer's lock until timedOut is set: complete result or timeout result, never a mixture): op=[{joinSp l.op}] impl=[{impl}]"
+      else r
+      let isWrite : Bool := match a with | .write _ => true | _ => false
+      let r := if isWrite && obsOf l "after" != "err" then
+        r.violation sec l.idx s!"a Write after the timeout did not return ErrHandlerTimeout: op=[{joinSp l.op}] impl=[{impl}]" else r
+      if parseView (obsOf l "final") ≠ some (Spec.timeout reasonBytes k) then
+        r.violation sec l.idx s!"response is neither the work's complete result nor the timeout result (mixture): op=[{joinSp l.op}] impl=[{impl}]"
+      else r
+    | _, _ => r.mismatch sec l.idx "bad-op" (joinSp l.op)
+  | _ => r.mismatch sec l.idx "bad-op" (joinSp l.op)
+
 def runDlLine (r : Report) (sec : Nat) (l : Line) : Report :=
   match l.op with
   | ["dl", p, d, hdr] =>
@@ -790,7 +821,11 @@ def runGlueLine (r : Report) (sec : Nat) (l : Line) : Report :=
         | some pm => if wraps && msI pm < specT then r.addCover "glue-cli-caller-earlier" else if wraps then r.addCover "glue-cli-caller-later" else r
         | none => r
       let r := if model ≠ impl then r.mismatch sec l.idx model impl else r
-      if dlViolates (obsOf l "dl") parent wraps (specT / 1000000) then
+      let r := if wraps && on && !users.isEmpty && c > 0 && (match users.getLast? with | some u => decide (u < msI c) | none => false)
+          && !callOpts.any (·.isSome) then r.addCover "glue-cli-WithTimeout-shorter-than-conf" else r
+      if !wraps && (obsOf l "dl").startsWith "window" then
+        r.violation sec l.idx s!"the call runs under a timeout although none is in force (effective timeout <= 0 — first WithCallTimeout, else last zrpc.WithTimeout, else RpcClientConf.Timeout — or the Timeout middleware off): the caller's context must reach the work untouched: op=[{joinSp l.op}] impl=[{impl}]"
+      else if dlViolates (obsOf l "dl") parent wraps (specT / 1000000) then
         r.violation sec l.idx s!"deadline that travels with the call is later than min(caller's deadline, now+effective timeout) as configured (first WithCallTimeout, else last zrpc.WithTimeout, else RpcClientConf.Timeout) through NewClient / buildDialOptions / buildUnaryInterceptors: op=[{joinSp l.op}] impl=[{impl}]"
       else r
     | _, _, _ => r.mismatch sec l.idx "bad-op" (joinSp l.op)
@@ -927,6 +962,7 @@ def runSection (r : Report) (s : Section) : Report :=
     | some "gt" | some "wct" => runCliOptLine r s.idx l
     | some "hij" => runHijLine r s.idx l
     | some "pair" => runPairLine r s.idx l
+    | some "tbw" => runTbwLine r s.idx l
     | some "gsrv" | some "gcli" => runGlueLine r s.idx l
     | some "edl" | some "emax" =>
       (match parseEng s.cfg with
